@@ -273,6 +273,8 @@ func TModeStubs(st map[string]StubFn) {
 		}
 		srcFile := strings.TrimPrefix(pat, "file=")
 		if r.Env["load"] == "symbolic" {
+			// the call itself is observable: the query and the directory the go command runs in
+			r.Effects = append(r.Effects, Effect{Op: "load.call", Args: []value{pat, structField(r, cfg, cfgT, "Dir")}})
 			return r.symbolicLoad(fr, fn, cfg, cfgT)
 		}
 		if v, ok := r.Env["load.err"]; ok && v == true {
